@@ -8,6 +8,7 @@ sequence the meaning of every operation is defined on values: a node is `{id, ta
 path is the list of item indexes from the root.
 
   n<path>:<id>   append a new node to `node(path).kids`             (`+= Move(node)`)
+  a<dst>=<src>   `node(dst).kids += node(src)` (`const Node&`; `src` may be an item of `node(dst).kids` itself)
   c<dst>=<src>   `node(dst).kids = node(src).kids`                    (copy assignment, Array.hpp:87-98)
   m<dst>=<src>   `node(dst).kids = Move(node(src).kids)`              (move assignment, Array.hpp:66-85)
   r<path>        `Reset()`     z<path>:<n> `ResizeAndInitialize(n)`     v<path>:<n> `Reserve(n, true)`
@@ -48,6 +49,7 @@ def setKidsAt : Node → List Nat → List Node → Node
 
 inductive TreeOp where
   | new (path : List Nat) (id : Nat)
+  | appendCopy (dst src : List Nat)    -- `node(dst).kids += node(src)` by `const&` (src anywhere: an item of that very array, an ancestor, …)
   | copy (dst src : List Nat)
   | move (dst src : List Nat)
   | reset (path : List Nat)
@@ -59,6 +61,10 @@ deriving Repr
 def TreeOp.step (op : TreeOp) (root : Node) : Option Node :=
   match op with
   | .new p id => (getAt root p).map fun n => setKidsAt root p (n.kids ++ [Node.fresh id])
+  | .appendCopy d s =>
+    match getAt root d, getAt root s with
+    | some dn, some sn => some (setKidsAt root d (dn.kids ++ [sn]))     -- the argument's value is taken first
+    | _, _ => none
   | .copy d s =>
     match getAt root d, getAt root s with
     | some _, some sn => some (setKidsAt root d sn.kids)
